@@ -424,8 +424,11 @@ func ZZ_C17_ReadConfined() {
 	zzvf.FsWrite(filepath.Join(logs, "s"), []byte("public"), 1700000000000000000)
 	zzvf.FsMkdir(filepath.Join(logs, "d"))
 	zzvf.FsWrite(filepath.Join(logs, "d", "s"), []byte("nested"), 1700000000000000000)
+	// a sibling directory whose name merely starts with "logs"
+	zzvf.FsMkdir(filepath.Join(home, "logs2"))
+	zzvf.FsWrite(filepath.Join(home, "logs2", "s"), []byte("SECRET"), 1700000000000000000)
 	var file string
-	c := zzvf.Choose(9)
+	c := zzvf.Choose(12)
 	switch c {
 	case 0:
 		file = zzvf.String(4)
@@ -433,7 +436,7 @@ func ZZ_C17_ReadConfined() {
 			zzvf.Assume(file[i] != 0)
 		}
 	default:
-		file = []string{"s", "../s", "./s", "d/s", "d/../s", "d/../../s", "../logs/s", "/s"}[c-1]
+		file = []string{"s", "../s", "./s", "d/s", "d/../s", "d/../../s", "../logs/s", "/s", "../logs2/s", "d/../../logs2/s", "../logs2/../logs/s"}[c-1]
 	}
 	var r *LogData
 	pv := zzvf.PanicValue(func() { r = lg.Read(file, -1, 100) })
